@@ -99,6 +99,10 @@ func vbLowestZeroKnown(st *ssa.Store, isHdrSlice func(ssa.Value) bool) bool {
 		}
 		known := xcHasFactCmp(st.Block(), func(cm ir.Cmp) bool {
 			for _, c := range []ir.Cmp{cm, {X: cm.Y, Y: cm.X, Op: ir.SwapOp(cm.Op)}} {
+				// the guard on the result of the search: j < 8 (v_blocks_u.go)
+				if vbuResultBelowEight(call, c) {
+					return true
+				}
 				k, isC := ir.ConstInt(xcStripConv(c.Y))
 				if !isC {
 					continue
